@@ -30,6 +30,39 @@ pub fn traverse_as(c: &Conc, shp: LogSource, shx: Option<LogSource>, t: i32, ran
     }
 }
 
+/// the same file with null-shape records (12 bytes: number, length 2, type 0) spliced in before `at` and at the end;
+/// the real writer cannot emit them, conformant files hold them (deleted features)
+pub fn splice_nulls(f: &TestFile, at: usize) -> TestFile {
+    let n = f.shapes.len();
+    let entry = |i: usize| -> (usize, usize) {
+        let o = 100 + 8 * i;
+        (i32::from_be_bytes([f.shx[o], f.shx[o + 1], f.shx[o + 2], f.shx[o + 3]]) as usize * 2,
+         i32::from_be_bytes([f.shx[o + 4], f.shx[o + 5], f.shx[o + 6], f.shx[o + 7]]) as usize * 2 + 8)
+    };
+    let null_rec = |num: i32| -> Vec<u8> { let mut v = vec![]; v.extend_from_slice(&num.to_be_bytes()); v.extend_from_slice(&2i32.to_be_bytes()); v.extend_from_slice(&0i32.to_le_bytes()); v };
+    let mut recs: Vec<(Vec<u8>, AShape)> = vec![];
+    for i in 0..n {
+        if i == at {
+            recs.push((null_rec(90 + i as i32), AShape::null()));
+        }
+        let (o, l) = entry(i);
+        recs.push((f.shp[o..o + l].to_vec(), f.shapes[i].clone()));
+    }
+    recs.push((null_rec(99), AShape::null()));
+    let mut shp = f.shp[..100].to_vec();
+    let mut shx = f.shx[..100].to_vec();
+    for (b, _) in &recs {
+        shx.extend_from_slice(&((shp.len() / 2) as i32).to_be_bytes());
+        shx.extend_from_slice(&(((b.len() - 8) / 2) as i32).to_be_bytes());
+        shp.extend_from_slice(b);
+    }
+    let l = (shp.len() / 2) as i32;
+    shp[24..28].copy_from_slice(&l.to_be_bytes());
+    let lx = (shx.len() / 2) as i32;
+    shx[24..28].copy_from_slice(&lx.to_be_bytes());
+    TestFile { t: f.t, shapes: recs.into_iter().map(|x| x.1).collect(), shp, shx, dbf: vec![] }
+}
+
 pub fn file_event(f: &TestFile) -> Value {
     json!({"ev": "file", "t": f.t, "shapes": f.shapes.iter().map(|s| s.to_json()).collect::<Vec<_>>(),
            "shp": jbytes(&f.shp), "shx": jbytes(&f.shx)})
@@ -60,9 +93,13 @@ pub fn run(a: &Args) {
                 continue;
             }
             let t = ALL_TYPES[(ti + seed as usize) % 13];
-            for _ in 0..nfiles {
+            for fi in 0..nfiles {
                 let n = 2 + r.below(2);
                 let f = make_file(&c, &mut r, t, n, false);
+                // every other file holds null-shape records among the others (read generically: a typed read stops there)
+                let has_null = (ti + fi) % 2 == 1;
+                let f = if has_null { splice_nulls(&f, r.below(n)) } else { f };
+                let n = f.shapes.len();
                 let mut fe = file_event(&f);
                 tr.run({
                     fe["kind"] = json!("damage");
@@ -82,7 +119,7 @@ pub fn run(a: &Args) {
                             }
                             // every other length through the typed entry points
                             let res = traverse_as(&c, LogSource::new(f.shp[..l].to_vec()),
-                                                  if with_idx { Some(LogSource::new(f.shx.clone())) } else { None }, t, random, n, l % 2 == 0);
+                                                  if with_idx { Some(LogSource::new(f.shx.clone())) } else { None }, t, random, n, l % 2 == 0 || has_null);
                             tr.emit(json!({"ev": "trunc", "which": "shp", "len": l, "withIdx": with_idx, "random": random, "res": res}));
                             cases += 1;
                         }
